@@ -33,11 +33,11 @@ Styles == << Plain,
              [x |-> TRUE, cmt |-> TRUE, names |-> 1, inl |-> TRUE, hex |-> 2, poss |-> TRUE, anch |-> TRUE] >>
 
 Hex2(c) == CASE c = "a" -> "61" [] c = "b" -> "62" [] c = "c" -> "63" [] c = "A" -> "41" [] c = "B" -> "42"
-             [] c = "N" -> "0A" [] c = "D" -> "2D" [] c = "S" -> "20" [] c = "E" -> "E9" [] OTHER -> ""
+             [] c = "N" -> "0A" [] c = "D" -> "2D" [] c = "S" -> "20" [] c = "E" -> "E9" [] c = "Z" -> "C9" [] OTHER -> ""
 HexL(c) == CASE c = "a" -> "61" [] c = "b" -> "62" [] c = "c" -> "63" [] c = "A" -> "41" [] c = "B" -> "42" [] c = "C" -> "43"
              [] c = "x" -> "78" [] c = "y" -> "79" [] c = "0" -> "30" [] c = "1" -> "31" [] c = "9" -> "39"
              [] c = "N" -> "a" [] c = "D" -> "2d" [] c = "S" -> "20" [] c = "R" -> "d" [] c = "U" -> "5f"
-             [] c = "E" -> "e9" [] c = "K" -> "e01" [] c = "T" -> "3042" [] c = "Q" -> "1f600" [] OTHER -> ""
+             [] c = "E" -> "e9" [] c = "Z" -> "c9" [] c = "K" -> "e01" [] c = "T" -> "3042" [] c = "Q" -> "1f600" [] OTHER -> ""
 LitFrag(c, st, inClass) ==
    IF st.hex = 1 /\ Hex2(c) # "" THEN <<"\\x" \o Hex2(c)>>
    ELSE IF st.hex = 2 /\ Hex2(c) # "" THEN <<"\\x{" \o Hex2(c) \o "}">>
@@ -45,7 +45,7 @@ LitFrag(c, st, inClass) ==
    ELSE IF st.hex = 4 /\ HexL(c) # "" THEN <<"\\x{" \o HexL(c) \o "}">>
    ELSE IF st.hex = 5 /\ HexL(c) # "" THEN <<"\\u{" \o HexL(c) \o "}">>
    ELSE CASE c = "N" -> <<"\\n">> [] c = "S" -> <<"\\ ">> [] c = "D" -> IF inClass THEN <<"\\-">> ELSE <<"-">>
-          [] c \in {"E", "T", "Q", "K"} -> <<"@" \o c>>
+          [] c \in {"E", "Z", "T", "Q", "K"} -> <<"@" \o c>>
           [] c = "U" -> <<"_">> [] c = "R" -> <<"\\r">>
           [] OTHER -> <<c>>
 RECURSIVE ClassFrags(_, _, _)
